@@ -479,3 +479,158 @@ func tail(s []string, n int) []string {
 	}
 	return s[len(s)-n:]
 }
+
+// TestC02Queue: C02 under event-driven scheduling. Nothing reconciles unless a watch event or a requeue request asks
+// for it (workQueue); the premises of the statement are kept (API calls succeed, the kubelet makes pods Ready). After
+// a generated history of template changes, node churn and pod losses, with or without a canary, the system must reach
+// the fixpoint of C02 within a generous bound of virtual time - by its own means: a controller that forgets to ask
+// for the next step, or whose progress depends on a loop nobody runs, stays short of it.
+func TestC02Queue(t *testing.T) {
+	rec := evid.New("TestC02Queue", "C02", "event-driven scheduling (see TestC14Queue): 2-4 nodes, reconcileFrequency in {1s, 2s, 10s}, maxUnavailable 1 or 100%, no canary / auto canary (duration 1m) / manual canary validated by the user at the end; 2-6 actions from {template change (A, B, C), node added, node removed, node tainted (not tolerated), pod deleted by the user, pod not Ready until the kubelet heals it} with 0-30s of event-driven running in between; then the system runs until the C02 fixpoint holds (one Ready pod of the live template per eligible node, nothing else, active set = spec.template, no canary left) or 90s + 40 x reconcileFrequency of virtual time have passed since the last change; monitors create-eligible, create-once, promotion-rule, status-function after every reconcile; non-trivial = at least one template change and one node or pod disturbance; distinct by configuration")
+	t.Cleanup(func() {
+		if !t.Failed() {
+			rec.Done()
+		}
+	})
+	rapid.Check(t, func(rt *rapid.T) {
+		nodes := rapid.IntRange(2, 4).Draw(rt, "nodes")
+		freq := rapid.SampledFrom([]time.Duration{time.Second, 2 * time.Second, 10 * time.Second}).Draw(rt, "reconcileFrequency")
+		maxU := rapid.SampledFrom([]string{"1", "100%"}).Draw(rt, "maxUnavailable")
+		canary := rapid.SampledFrom([]string{"none", "auto", "manual"}).Draw(rt, "canary")
+		na := rapid.IntRange(2, 6).Draw(rt, "actions")
+		type act struct {
+			Kind string
+			Run  time.Duration
+		}
+		var acts []act
+		for i := 0; i < na; i++ {
+			acts = append(acts, act{
+				Kind: rapid.SampledFrom([]string{"template-B", "template-C", "template-A", "node-added", "node-removed", "node-tainted", "pod-deleted", "pod-unready"}).Draw(rt, fmt.Sprintf("a%d-kind", i)),
+				Run:  rapid.SampledFrom([]time.Duration{0, 300 * time.Millisecond, 1200 * time.Millisecond, 5 * time.Second, 30 * time.Second}).Draw(rt, fmt.Sprintf("a%d-run", i)),
+			})
+		}
+		desc := fmt.Sprintf("nodes=%d reconcileFrequency=%s maxUnavailable=%s canary=%s actions=%v", nodes, freq, maxU, canary, acts)
+		var viol []mon.V
+		w := &World{rec: rec, cfg: WorldCfg{Monitors: mon.Of("create-eligible", "create-once", "promotion-rule", "status-function", "no-panic"), Property: "C02"}, H: mon.NewHistory(), RSSeen: map[string]bool{}, RolesSynced: map[string]bool{}, Facts: map[string]int{}, lastSyncAt: map[string]time.Time{}, Det: true}
+		w.OnViolation = func(vs []mon.V) { viol = append(viol, vs...) }
+		w.C = sim.New(sim.Options{})
+		for i := 0; i < nodes; i++ {
+			w.C.AddNode(fmt.Sprintf("n%d", i+1), map[string]string{"zone": "a", "tier": "a"}, nil)
+		}
+		st := edsv1.ExtendedDaemonSetSpecStrategy{ReconcileFrequency: &metav1.Duration{Duration: freq}}
+		st.RollingUpdate.MaxUnavailable = gen.ParseIntOrPercent(maxU)
+		st.RollingUpdate.SlowStartAdditiveIncrease = gen.ParseIntOrPercent("10")
+		switch canary {
+		case "auto":
+			st.Canary = &edsv1.ExtendedDaemonSetSpecStrategyCanary{Replicas: gen.ParseIntOrPercent("1"), ValidationMode: edsv1.ExtendedDaemonSetSpecStrategyCanaryValidationModeAuto, Duration: &metav1.Duration{Duration: time.Minute}, NoRestartsDuration: &metav1.Duration{}}
+		case "manual":
+			st.Canary = &edsv1.ExtendedDaemonSetSpecStrategyCanary{Replicas: gen.ParseIntOrPercent("1"), ValidationMode: edsv1.ExtendedDaemonSetSpecStrategyCanaryValidationModeManual}
+		}
+		k := sim.KeyOf("ns1", "foo")
+		w.EDS = append(w.EDS, k)
+		q := newWorkQueue(w)
+		stop := func() bool { return len(viol) > 0 }
+		q.env(func() {
+			w.C.Add(&edsv1.ExtendedDaemonSet{ObjectMeta: metav1.ObjectMeta{Namespace: "ns1", Name: "foo"}, Spec: edsv1.ExtendedDaemonSetSpec{Template: gen.LetterTemplate('A'), Strategy: st}})
+		})
+		q.LastChange = w.C.Now()
+		bound := 90*time.Second + 40*freq
+		// the user validates a manual canary as soon as its replica set exists (an annotation write: an EDS event)
+		validate := func() {
+			e := w.C.EDS(k.Namespace, k.Name)
+			if e == nil || canary != "manual" {
+				return
+			}
+			for _, rs := range w.rsOf(k) {
+				if oracle.RSMatchesTemplate(rs, &e.Spec.Template) && rs.Name != e.Status.ActiveReplicaSet && e.Annotations[oracle.AnnCanaryValid] != rs.Name {
+					name := rs.Name
+					q.env(func() { _ = w.C.SetEDSAnnotation(k.Namespace, k.Name, oracle.AnnCanaryValid, name) })
+				}
+			}
+		}
+		converge := func(label string) bool {
+			deadline := q.LastChange.Add(bound)
+			for !stop() && w.C.Now().Before(deadline) {
+				validate()
+				if w.fixpointOK() == "" {
+					if e := w.C.EDS(k.Namespace, k.Name); e != nil && e.Status.Canary == nil {
+						return true
+					}
+				}
+				next := w.C.Now().Add(freq)
+				if next.After(deadline) {
+					next = deadline
+				}
+				q.runUntil(next, 4000, stop)
+			}
+			return stop() || (w.fixpointOK() == "" && w.C.EDS(k.Namespace, k.Name).Status.Canary == nil)
+		}
+		if !converge("first roll-out") && !stop() {
+			viol = append(viol, mon.V{Property: "C02", Monitor: "convergence", Sig: "C02/convergence/event-driven/first-roll-out", Detail: fmt.Sprintf("%s after the ExtendedDaemonSet was created: %s; %s (%s)", bound, w.fixpointOK(), w.describe(), desc)})
+		}
+		edits, churn := 0, 0
+		for ai, a := range acts {
+			if stop() {
+				break
+			}
+			var victim *corev1.Pod
+			for _, p := range w.C.Pods() {
+				if p.DeletionTimestamp == nil && oracle.IsReady(p) {
+					victim = p
+					break
+				}
+			}
+			q.env(func() {
+				w.C.Tracef("-- action %d: %s", ai+1, a.Kind)
+				switch a.Kind {
+				case "template-A", "template-B", "template-C":
+					edits++
+					w.editTemplate(k, a.Kind[len(a.Kind)-1])
+				case "node-added":
+					churn++
+					w.next++
+					w.C.AddNode(fmt.Sprintf("m%d", w.next), map[string]string{"zone": "a", "tier": "a"}, nil)
+				case "node-removed":
+					if ns := w.C.Nodes(); len(ns) > 2 {
+						churn++
+						w.C.RemoveNode(ns[len(ns)-1].Name)
+					}
+				case "node-tainted":
+					if ns := w.C.Nodes(); len(ns) > 2 {
+						churn++
+						w.C.MutateNode(ns[0].Name, func(n *corev1.Node) {
+							n.Spec.Taints = []corev1.Taint{{Key: "dedicated", Value: "gpu", Effect: corev1.TaintEffectNoSchedule}}
+						})
+					}
+				case "pod-deleted":
+					if victim != nil {
+						churn++
+						w.C.UserDeletePod(victim.Namespace, victim.Name)
+					}
+				case "pod-unready":
+					if victim != nil {
+						churn++
+						w.C.Unready(victim.Namespace, victim.Name)
+					}
+				}
+			})
+			q.LastChange = w.C.Now()
+			if a.Run > 0 {
+				q.runUntil(w.C.Now().Add(a.Run), 4000, stop)
+			}
+		}
+		if !stop() {
+			q.LastChange = w.C.Now()
+			if !converge("end") && !stop() {
+				viol = append(viol, mon.V{Property: "C02", Monitor: "convergence", Sig: "C02/convergence/event-driven/no-fixpoint", Detail: fmt.Sprintf("%s of event-driven running after the last action: %s; %s (%s)", bound, w.fixpointOK(), w.describe(), desc)})
+			}
+		}
+		nt := edits > 0 && churn > 0
+		rec.Case(nt, evid.FP(desc), "canary="+canary, fmt.Sprintf("frequency=%s", freq))
+		rec.Steps(q.Steps)
+		if nt && rec.WantSample() {
+			rec.Sample(desc)
+		}
+		settle(rt, rec, viol, map[string]interface{}{"config": desc, "trace": tail(w.C.Trace, 200)}, len(w.C.Trace), "config: "+desc+"\n--- trace (tail) ---\n"+strings.Join(tail(w.C.Trace, 80), "\n"))
+	})
+}
